@@ -75,6 +75,13 @@ def option_menu(cls):
             continue
         d = p.default
         if d is inspect.Parameter.empty:
+            # a required numeric option whose zero / non-zero value switches
+            # equations on or off (nu, pb, alpha ...): the value the harness
+            # passes by default, then the alternatives
+            if nm in NUMERIC and nm in REQUIRED:
+                alts = [v for v in NUMERIC[nm][1:] if v != REQUIRED[nm]]
+                if alts:
+                    menu[nm] = [REQUIRED[nm]] + alts
             continue
         if isinstance(d, bool):
             menu[nm] = [d, not d]
